@@ -427,6 +427,9 @@ func main() {
 			break
 		}
 		scName := strings.Join(sc.Threads, "||")
+		if only := os.Getenv("C09_ONLY"); only != "" && !strings.Contains(scName, only) {
+			continue // (development aid: restrict the run to some scenarios)
+		}
 		wpath := filepath.Join(dir, fmt.Sprintf("c09-world-%d.db", worldSeq))
 		var cur *world
 		var results []*result
